@@ -23,10 +23,10 @@ class C09(Cfg):
                   "(count, daily hash of the sorted signatures, history(d1)=daily(d1), history(dk+1)=H(history(dk)++daily(dk))) of the stored content; "
                   "hence equal content => equal logs whatever the batching, and (hash = identity on what is fed) different per-day signature sets => different logs. "
                   "Every concrete write of the model (local create/update/move/reference/deletion, synchronised rows, synchronised deletion records) covers its days under Defects.none. "
-                  "For the code as it is the statement is FALSE: decide-checked witnesses for the dropped history seed, the entity not compared, the emptied day keeping a row "
-                  "and the reference deletion left unmarked; proved for the code as it is: every MARKED day gets the count and daily hash of its content. "
+                  "For the code as it is the statement is FALSE: decide-checked witnesses for the dropped history seed, the entity not compared and the emptied day keeping a row "
+                  "(all #20, history hashes only); proved for the code as it is: every MARKED day gets the count and daily hash of its content, and every write of the model marks the days it touches. "
                   "Regression witnesses (fixed in /repo, switch off, corpus replay kept): the lazily evaluated SELECT (079e672), the old day of a synchronised cross-day update (8123d04), "
-                  "the synchronised deletion of another version (1a9cbe6). "
+                  "the synchronised deletion of another version (1a9cbe6), the reference deletion that re-dates its source row without marking (9b21e0a) or without removing anything (456214b). "
                   "The model is tied to /repo by running both on the same generated multi-day histories and comparing every table of every peer after every op.")
     level_note = ("Trusted: Lean kernel (+propext, Classical.choice, Quot.sound), the hand-written models lean/DiscretModel/Model/{DailyLog,Sync}.lean and the harness. "
                   "Modelled and exercised: daily_log.rs (marks, compute), the marking sites of mutation_query.rs, deletion.rs, node.rs, edge.rs, the batch writer's end-of-batch mark write, "
